@@ -177,7 +177,7 @@ def C10(tier, seed):
 def C11(tier, seed):
     chk = Check('C11', tier, seed)
     be = [0, 2, 3] + ([4] if tier == 'thorough' else [])
-    oracle_units(chk, ['T'], be, 'C11', proj=STD, check_result=False, bfs_depth=6)
+    oracle_units(chk, ['T', 'Tq'], be, 'C11', proj=STD, check_result=False, bfs_depth=6)
     return chk
 
 
